@@ -677,7 +677,7 @@ def run(ctx):
         meta.append(m)
 
     dist = {"json": 0, "sha256": 0, "thumb_direct": 0, "thumb_direct_err": 0, "keys": 0, "key_variants": 0, "ec_short": 0,
-            "kid_flows": 0, "histories": 0, "digest_matrix": 0, "subclass_constructors": 0, "import_key_set": 0, "entry_points": 0, "keysets": 0, "generated": 0, "digest_variants": 0, "spec": 0, "fixtures": 0}
+            "kid_flows": 0, "histories": 0, "digest_matrix": 0, "subclass_constructors": 0, "generate_kid_matrix": 0, "import_key_set": 0, "entry_points": 0, "keysets": 0, "generated": 0, "digest_variants": 0, "spec": 0, "fixtures": 0}
     per_repr = {}
 
     # ---- reference self-check on the RFC vectors (a failure here is a harness bug)
@@ -875,7 +875,7 @@ def run(ctx):
             for private, params in ((None, {}), (False, {}), (True, {}), (None, {"use": "sig"}), (False, {"alg": "x", "zz": "1"})):
                 dvk = dict(K.dict_value)
                 ex = call(K.as_dict, private, **params)
-                if rng.random() < (0.3 if ctx.quick else 0.6):
+                if rng.random() < (0.2 if ctx.quick else 0.6):
                     add("CAsDict %s %s %s %s %s %s" % (c_N(ci), c_bool(K.is_private), c_dict(dvk),
                                                        c_opt(private, c_bool), c_dict(params), c_res(ex, c_dict)),
                         ("as_dict", label, v, private, params))
@@ -1217,7 +1217,8 @@ def run(ctx):
                     r = call(K.thumbprint)
                     calls = rec.take()
                     dvs = dict(K.dict_value)
-                    add("CSubKey %s %s %s %s %s" % (c_oracle(calls), c_N(CLS_IDX[kty]), c_dict({k: x for k, x in dvs.items() if k in REQ[kty] or k == "kid"}),
+                    if not ctx.quick or rng.random() < 0.5 or how.startswith(("Sub.generate_key", "SubRegistry.generate_key", "SubKeySet.generate")):
+                      add("CSubKey %s %s %s %s %s" % (c_oracle(calls), c_N(CLS_IDX[kty]), c_dict({k: x for k, x in dvs.items() if k in REQ[kty] or k == "kid"}),
                                                     c_str(dg), c_res(r, c_str)), ("subclass-key", how, kty, arg, dg))
                     K.ensure_kid()
                     again = call(lambda: Sub.import_key(ref_jwk(public_of(K.raw_value)) if kty != "oct" else ref_jwk(K.raw_value)).thumbprint())
@@ -1234,6 +1235,89 @@ def run(ctx):
                         problems.append("the same material imported through the subclass has thumbprint %r" % (again[1],))
                     if problems:
                         ctx.violation(sig, "%s for %s %r, subclass with thumbprint_digest_method=%r: %s" % (how, kty, arg, dg, "; ".join(problems)), rp)
+
+        # ---- H. generation with an explicit kid in `parameters`: every key type x every generating entry (class, registry,
+        # key set, subclass, registry / key set of subclasses) x auto_kid True / False / omitted: the given kid stays
+        other_thumb = ref_thumbprint(ref_jwk(public_of(materials[-1][1])))
+        h_subs = {kty: type("SubH" + kty, (cls_of(kty),), {"thumbprint_digest_method": "sha384"}) for kty in REQ}
+        h_reg = type("SubRegistryH", (JWKRegistry,), {"key_types": dict(h_subs)})
+        h_kset = type("SubKeySetH", (KeySet,), {"registry_cls": h_reg})
+        gen_budget = {"RSA": ctx.scale(2, 12)}
+        for kty, arg in gen_specs + [("RSA", 1024)] + ([] if ctx.quick else [("RSA", 2048)]):
+            cls = cls_of(kty)
+            for given in ["", "my-kid", other_thumb, "0", None]:
+                for auto in (True, False, None):
+                    for entry in ("class", "registry", "keyset", "subclass", "subclass-registry", "subclass-keyset"):
+                        if ctx.quick and kty == "RSA" and arg != 1024:
+                            continue
+                        if ctx.quick and given in ("0", None) and rng.random() < 0.6:
+                            continue
+                        if entry.endswith("keyset") and auto is not None:
+                            continue               # generate_key_set has no auto_kid argument: the constructor assigns kids
+                        private = kty == "oct" or rng.random() < 0.6
+                        params = {"use": "sig"} if rng.random() < 0.5 else {}
+                        if given is not None:
+                            params["kid"] = given
+                        if rng.random() < 0.3:
+                            params["alg"] = "whatever"
+                        if given is None and rng.random() < 0.3:
+                            params = None
+                        handed = copy.deepcopy(params)
+                        kw = {} if auto is None else {"auto_kid": auto}
+
+                        def gen():
+                            if entry == "class":
+                                return cls.generate_key(arg, handed, private, **kw)
+                            if entry == "registry":
+                                return JWKRegistry.generate_key(kty, arg, handed, private, **kw)
+                            if entry == "keyset":
+                                return KeySet.generate_key_set(kty, arg, handed, private, count=2).keys[1]
+                            if entry == "subclass":
+                                return h_subs[kty].generate_key(arg, handed, private, **kw)
+                            if entry == "subclass-registry":
+                                return h_reg.generate_key(kty, arg, handed, private, **kw)
+                            return h_kset.generate_key_set(kty, arg, handed, private, count=2).keys[0]
+                        rec.take()
+                        r = call(gen)
+                        calls = rec.take()
+                        dist["generate_kid_matrix"] += 1
+                        ctx.note_case(("generate-kid", kty, arg, given, auto, entry, dist["generate_kid_matrix"]))
+                        sig = {"kind": "generate-kid", "kty": kty, "entry": entry}
+                        rp = {"fn": "generate-kid", "kty": kty, "arg": arg, "parameters": params, "private": private,
+                              "auto_kid": auto, "entry": entry}
+                        if r[0] != "ok":
+                            ctx.violation(dict(sig, kind="generate-raises"), "generation of %s %r via %s with parameters %r, auto_kid=%r raised %r" % (
+                                kty, arg, entry, params, auto, r[1]), rp)
+                            continue
+                        K = r[1]
+                        sub = entry.startswith("subclass")
+                        want = ref_thumbprint(ref_jwk(public_of(K.raw_value)), "sha384" if sub else "sha256")
+                        assigns = bool(auto) or entry.endswith("keyset")
+                        exp_now = given if given is not None else (want if assigns else None)
+                        now = call(lambda: K.kid)
+                        dv_now = dict(K.dict_value)
+                        if not sub and (kty != "RSA" or gen_budget["RSA"] > 0) and rng.random() < (0.35 if ctx.quick else 0.6) \
+                                and not entry.endswith("keyset"):
+                            gen_budget["RSA"] -= (kty == "RSA")
+                            add("CGenerate %s %s %s %s %s" % (c_oracle(calls), c_native(K.raw_value), c_opt(params, c_dict), c_bool(bool(auto)),
+                                                              "(Ok %s)" % c_dict(dv_now)), ("generate", kty, arg, params, auto, entry))
+                        K.ensure_kid()
+                        K.ensure_kid()
+                        exp_after = given if given is not None else want
+                        problems = []
+                        if now != ("ok", exp_now):
+                            problems.append("kid after generation is %r, expected %r" % (now[1], exp_now))
+                        if K.kid != exp_after or K.as_dict().get("kid") != exp_after:
+                            problems.append("kid after ensure_kid is %r (exported %r), expected %r" % (K.kid, K.as_dict().get("kid"), exp_after))
+                        if K.thumbprint() != want:
+                            problems.append("thumbprint %r, RFC 7638 value %r" % (K.thumbprint(), want))
+                        if handed != params:
+                            problems.append("the caller's parameters dict was changed to %r" % (handed,))
+                        if given is not None and KeySet([K]).keys[0].kid != given:
+                            problems.append("KeySet([key]) changed the kid to %r" % (K.kid,))
+                        if problems:
+                            ctx.violation(sig, "generation of %s %r via %s with parameters=%r, private=%r, auto_kid=%r: %s (thumbprint %r)" % (
+                                kty, arg, entry, params, private, auto, "; ".join(problems), want), rp)
 
         # import_key_set of a JWK Set whose members have no kid / an explicit kid (also the falsy ""), with shared parameters
         for _ in range(ctx.scale(25, 300)):
@@ -1307,7 +1391,10 @@ def run(ctx):
                         problems.append("the shared parameters dict was changed to %r" % (shared,))
                     if k1.is_private != private:
                         problems.append("private=%r gave is_private=%r" % (private, k1.is_private))
-                    if ks[0] != "ok" or call(ks[1].get_by_kid, w2) != ("ok", k2) or call(ks[1].get_by_kid, w1) != ("ok", k1):
+                    # (two generated 8-bit oct keys may be equal: compare what is found by kid, not by identity)
+                    f1, f2 = (call(ks[1].get_by_kid, w) if ks[0] == "ok" else ("err", None) for w in (w1, w2))
+                    if f1[0] != "ok" or f2[0] != "ok" or f1[1] not in (k1, k2) or f2[1] not in (k1, k2) or \
+                            f1[1].thumbprint() != w1 or f2[1].thumbprint() != w2:
                         problems.append("KeySet.get_by_kid(thumbprint) does not find the keys")
                     if problems:
                         ctx.violation({"kind": "generate-auto-kid", "kty": kty, "via": via, "auto_kid": str(auto)},
@@ -1506,6 +1593,28 @@ def replay(path):
         K.ensure_kid()
         print(how, "->", type(K).__name__, "thumbprint", t, "kid", K.kid, " RFC 7638 value for", dg, ":", want)
         return 1 if (type(K) is not Sub or t != want or (K.kid != want)) else 0
+    if r.get("fn") == "generate-kid":
+        from joserfc.jwk import JWKRegistry, KeySet
+        kty, arg, params, private, auto, entry = r["kty"], r["arg"], r["parameters"], r["private"], r["auto_kid"], r["entry"]
+        subs = {k: type("SubH" + k, (cls_of(k),), {"thumbprint_digest_method": "sha384"}) for k in REQ}
+        reg = type("SubRegistryH", (JWKRegistry,), {"key_types": dict(subs)})
+        kset = type("SubKeySetH", (KeySet,), {"registry_cls": reg})
+        kw = {} if auto is None else {"auto_kid": auto}
+        handed = copy.deepcopy(params)
+        K = {"class": lambda: cls_of(kty).generate_key(arg, handed, private, **kw),
+             "registry": lambda: JWKRegistry.generate_key(kty, arg, handed, private, **kw),
+             "keyset": lambda: KeySet.generate_key_set(kty, arg, handed, private, count=2).keys[1],
+             "subclass": lambda: subs[kty].generate_key(arg, handed, private, **kw),
+             "subclass-registry": lambda: reg.generate_key(kty, arg, handed, private, **kw),
+             "subclass-keyset": lambda: kset.generate_key_set(kty, arg, handed, private, count=2).keys[0]}[entry]()
+        want = ref_thumbprint(ref_jwk(public_of(K.raw_value)), "sha384" if entry.startswith("subclass") else "sha256")
+        given = (params or {}).get("kid")
+        assigns = bool(auto) or entry.endswith("keyset")
+        exp = given if params and "kid" in params else (want if assigns else None)
+        print("kid after generation:", repr(K.kid), "expected:", repr(exp), " thumbprint:", K.thumbprint(), "RFC 7638 value:", want)
+        bad = K.kid != exp or K.thumbprint() != want
+        K.ensure_kid()
+        return 1 if bad or K.kid != (given if params and "kid" in params else want) else 0
     if r.get("fn") == "import_key_set":
         from joserfc.jwk import KeySet
         ks = KeySet.import_key_set(copy.deepcopy(r["jwks"]), r["parameters"])
